@@ -363,10 +363,13 @@ func (m *Module) validateFunctions(enabledFeatures api.CoreFeatures, functions [
 	br := bytes.NewReader(nil)
 	// Also, we reuse the stacks across multiple function validations to reduce allocations.
 	vs := &stacks{}
+	// All type indexes are checked first, as a function body can call any function, including later ones.
 	for idx, typeIndex := range m.FunctionSection {
 		if typeIndex >= typeCount {
 			return fmt.Errorf("invalid %s: type section index %d out of range", m.funcDesc(SectionIDFunction, Index(idx)), typeIndex)
 		}
+	}
+	for idx := range m.FunctionSection {
 		c := &m.CodeSection[idx]
 		if c.GoFunc != nil {
 			continue
